@@ -311,7 +311,8 @@ def run_case(cg, start, n, inject, export, auto, backend, cid):
         if any(it["p"] == 0 for it in st["items"]) or any(r["p"] == 0 for r in st["reds"]):
             return None
     return {"id": cid, "G": G, "sp": sp[start], "n": n, "inject": inject, "P": ec["P"],
-            "recovery": bool(export["uses_error_recovery"]), "backend": backend, "states": states}
+            "recovery": bool(export["uses_error_recovery"]), "backend": backend, "states": states,
+            "pmap": [remap[i + 1] for i in range(len(eg["prods"]))]}
 
 
 def inlinable(cg):
